@@ -417,6 +417,15 @@ func (r *replicatorActor) handleUpdate(ctx *ReceiveContext, msg updateCommand) {
 // handleGet reads the current value of a CRDT key.
 func (r *replicatorActor) handleGet(ctx *ReceiveContext, msg getCommand) {
 	keyID := msg.KeyID()
+
+	// a tombstoned key has no value until the tombstone expires: do not ask
+	// peers that may not have seen the tombstone yet, and never write their
+	// answer back into the store
+	if _, ok := r.tombstones[keyID]; ok {
+		ctx.Response(msg.Response(nil))
+		return
+	}
+
 	data := r.store[keyID]
 
 	coordination := msg.ReadCoordination()
